@@ -27,7 +27,10 @@ ASSUMPTIONS = ["a data column named like a transform (e.g. `C`, `log`) shadows i
 
 FORMULAS = ["a + b", "y ~ a:b", "`x y` + a", "log(a) + b", "np.exp(a) + C(A)", "I(a + b) + c", "scale(a) : A", "a + `z-1`:b", "center(a) + poly(b, 2)",
             "f(a) + b", "g(a, k) + A", "a ** 2 + b", "C(A, contr.sum) + a", "log(`x y`) + b", "y + b ~ a", "a + I(m.n)", "h(b)[0] + a", "a:k",
-            "g(a, w=b) + c", "np.clip(a, a_min=b, a_max=c)", "y ~ g(v=a, w=c):b", "f(v=`x y`) + a"]
+            "g(a, w=b) + c", "np.clip(a, a_min=b, a_max=c)", "y ~ g(v=a, w=c):b", "f(v=`x y`) + a",
+            # names bound inside the expression (comprehension / lambda variables that are ALSO data columns), calls and attributes on expressions
+            "f(np.asarray([c * 2.0 for c in a])) + b", "f(np.asarray([k + c for k, c in zip(a, b)]))", "mk(a)(b) + c", "hs[0](a) + b", "{(a + b).abs()} + c",
+            "f(np.asarray(list(map(lambda c: c + 1.0, a))))", "mk(`x y`)(b):A", "I(hs[0](c) + mk(a)(a))"]
 
 
 def _resolution_stream(ctx: Ctx):
@@ -148,7 +151,7 @@ def _required_oracle(ctx: Ctx):
     n = 6
     all_cols = {"a": [1.0, 2, 3, 4, 5, 6.5], "b": [2.0, 1, 0.5, 3, 4, 1], "c": [1.0, 4, 2, 8, 1, 2], "y": [0.0, 1, 0, 1, 1, 0], "k": [1.0] * n,
                 "x y": [3.0, 1, 2, 2, 1, 5], "z-1": [1.0, 2, 1, 2, 1, 2], "A": ["x", "y", "z", "x", "y", "z"]}
-    ctxs = {"f": lambda v: v * 2, "g": lambda v, w: v + w, "h": lambda v: [v, v], "k": 3.0,
+    ctxs = {"f": lambda v: v * 2, "g": lambda v, w: v + w, "h": lambda v: [v, v], "k": 3.0, "mk": lambda v: (lambda w: v + w), "hs": [lambda v: v * 2],
             "m": type("M", (), {"n": np.array([1.0, 0, 1, 0, 1, 0])})(), "a": [9.0] * n}
     for i in range(ctx.n(200, 3000)):
         f = rng.choice(FORMULAS)
